@@ -84,7 +84,14 @@ def wide_tables(rng):
     """Tables wider than a machine word (bitset ints > 64 bits)."""
     out = []
     for n, m in ((66, 4), (1, 70), (3, 130), (70, 1), (130, 3), (2, 65), (65, 2)):
-        out.append(('wide%dx%d' % (n, m), random_table(rng, n, m, rng.choice((0.5, 0.8, 0.95)))))
+        rows = [list(r) for r in random_table(rng, n, m, rng.choice((0.5, 0.8, 0.95)))]
+        # the last object / property must not be universal (its covers are the ones only the last atom generates), nor the first
+        rows[-1][0] = False
+        rows[0][-1] = False
+        if n > 1 and m > 1:
+            rows[-1][-1] = True
+            rows[0][0] = True
+        out.append(('wide%dx%d' % (n, m), tuple(tuple(r) for r in rows)))
     return out
 
 
